@@ -186,11 +186,33 @@ func (r *bungeeCordMessageResponder) prepareForwardMessage(in io.Reader) (forwar
 	return forwarded.Bytes()
 }
 
+// PlayerServerConnectionProvider is optionally implemented by Providers to
+// resolve the current server connection of any online player, which the
+// sub-channels that target another player (ForwardToPlayer, GetPlayerServer) need.
+type PlayerServerConnectionProvider interface {
+	// ConnectedServerOf returns the current server connection of the player or nil.
+	ConnectedServerOf(Player) ServerConnection
+}
+
+// connectedServerOf returns the current server connection of the given player.
+func (r *bungeeCordMessageResponder) connectedServerOf(player Player) ServerConnection {
+	if p, ok := r.Providers.(PlayerServerConnectionProvider); ok {
+		return p.ConnectedServerOf(player)
+	}
+	if player != nil && r.player != nil && player.ID() == r.player.ID() {
+		return r.ConnectedServer()
+	}
+	return nil
+}
+
 func (r *bungeeCordMessageResponder) sendServerResponse(in []byte) {
+	r.sendServerResponseTo(r.ConnectedServer(), in)
+}
+
+func (r *bungeeCordMessageResponder) sendServerResponseTo(serverConn ServerConnection, in []byte) {
 	if len(in) == 0 {
 		return
 	}
-	serverConn := r.ConnectedServer()
 	if serverConn == nil {
 		return
 	}
@@ -200,7 +222,8 @@ func (r *bungeeCordMessageResponder) sendServerResponse(in []byte) {
 
 func (r *bungeeCordMessageResponder) processForwardToPlayer(in io.Reader) {
 	r.readPlayer(in, func(player Player) {
-		r.sendServerResponse(r.prepareForwardMessage(in))
+		// The payload goes to the server the named player is connected to.
+		r.sendServerResponseTo(r.connectedServerOf(player), r.prepareForwardMessage(in))
 	})
 }
 
@@ -443,7 +466,7 @@ func (r *bungeeCordMessageResponder) processKickRaw(in io.Reader) {
 
 func (r *bungeeCordMessageResponder) processGetPlayerServer(in io.Reader) {
 	r.readPlayer(in, func(player Player) {
-		s := r.ConnectedServer()
+		s := r.connectedServerOf(player) // the named player's server, not the requester's
 		if s == nil {
 			return
 		}
